@@ -408,7 +408,7 @@ def stream_cachefs(ctx: Ctx) -> Stream:
 		for rec in load_corpus():
 			if rec.get('stream') == 'cachefs':
 				cases.append(case_cachefs(ctx, rng, lib, 0, bool(rec.get('seeded', True)), corpus_ops=rec['ops'], shape=rec['shape'], variants=rec['variants']))
-		n = ctx.scale(12, 60)
+		n = ctx.scale(12, 48)
 		for i in range(n):
 			seeded = (i % 5) != 0
 			cases.append(case_cachefs(ctx, rng, lib, ctx.scale(9, 16) if seeded else ctx.scale(5, 8), seeded))
@@ -524,7 +524,7 @@ def search_warm_cold(ctx: Ctx, only: list[tuple[str, dict[str, int], list[list[s
 	n_random = ctx.scale(8, 80) if only is None else 0
 	hist: dict[str, int] = {}
 	seen: set[str] = set()
-	budget_runs = ctx.scale(84, 480)
+	budget_runs = ctx.scale(84, 400)
 	runs = 0
 	for hi in range(len(histories) + n_random):
 		if runs >= budget_runs:
